@@ -19,6 +19,8 @@ func init() {
 	register(&Scenario{Prop: "C11", Name: "gate-seq", Run: func(rc *RunCtx) { runGateSeq(rc, "C11") }})
 	register(&Scenario{Prop: "C11", Name: "gate-conc", Run: func(rc *RunCtx) { runGateConc(rc) }})
 	register(&Scenario{Prop: "C17", Name: "gate-expiry", Run: func(rc *RunCtx) { runGateSeq(rc, "C17") }})
+	register(&Scenario{Prop: "C11", Name: "gate-enum", Run: func(rc *RunCtx) { runGateEnum(rc, "C11") }})
+	register(&Scenario{Prop: "C17", Name: "gate-enum", Run: func(rc *RunCtx) { runGateEnum(rc, "C17") }})
 }
 
 type gateHarness struct {
@@ -124,12 +126,47 @@ func seqsEqual(a, b []int) bool {
 	return true
 }
 
-func runGateSeq(rc *RunCtx, prop string) {
+// gateEnumAlphabet: histories over this alphabet are enumerated exhaustively up
+// to a small depth, once with and once without a Broker (C11 / C17).
+var gateEnumAlphabet = []gateOp{
+	{Kind: "event", ID: "a"}, {Kind: "event", ID: "a", Flush: true},
+	{Kind: "event", ID: "b"}, {Kind: "event", ID: "b", Flush: true},
+	{Kind: "advance", D: -1}, // expiration + 1ns
+	{Kind: "advance", D: -2}, // half the expiration
+	{Kind: "flushall"}, {Kind: "close"}, {Kind: "plain"},
+}
+
+func runGateEnum(rc *RunCtx, prop string) {
+	depth := 4
+	if rc.Tier == "thorough" {
+		depth = 5
+	}
+	idx := rc.EnumIndex
+	broker := idx%2 == 0
+	seq, ok := decodeSeq(idx/2, len(gateEnumAlphabet), depth)
+	if !ok {
+		runGateSeqOps(rc, prop, nil, false)
+		return
+	}
+	ops := make([]gateOp, len(seq))
+	for i, x := range seq {
+		ops[i] = gateEnumAlphabet[x]
+	}
+	rc.Stat("enum.histories", 1)
+	runGateSeqOps(rc, prop, ops, broker)
+}
+
+func runGateSeq(rc *RunCtx, prop string) { runGateSeqOps(rc, prop, nil, false) }
+
+func runGateSeqOps(rc *RunCtx, prop string, fixed []gateOp, fixedBroker bool) {
 	tp := rc.Tape
 	sim := rc.Sim
 	h := &gateHarness{now: time.Date(2026, 5, 1, 0, 0, 0, 0, time.UTC), composeFail: map[int]bool{}, composeGate: map[int]bool{}, sendFail: map[int]bool{}}
 	E := []time.Duration{100, 1000, 10 * time.Second}[tp.Choose(3, "expiration")]
 	hasBroker := tp.Choose(4, "broker") != 0
+	if fixed != nil {
+		hasBroker = fixedBroker
+	}
 	gf := &gated.Filter{Expiration: E, NowFunc: func() time.Time { return h.now }}
 	if tp.Choose(5, "default-expiration") == 0 {
 		gf.Expiration = 0
@@ -140,7 +177,7 @@ func runGateSeq(rc *RunCtx, prop string) {
 	}
 	desc := &gateDesc{Broker: hasBroker, Expiration: E.String()}
 	rc.Desc = desc
-	withFaults := tp.Choose(3, "faults") == 0
+	withFaults := tp.Choose(3, "faults") == 0 && fixed == nil
 	maxOps := 40
 	if prop == "C11" && tp.Choose(4, "long") == 0 {
 		maxOps = 200
@@ -148,6 +185,9 @@ func runGateSeq(rc *RunCtx, prop string) {
 	n := 1 + tp.Choose(maxOps, "nops")
 	if tp.Choose(3, "short") == 0 {
 		n = 1 + tp.Choose(7, "nops-short")
+	}
+	if fixed != nil {
+		n = len(fixed)
 	}
 	ids := []string{"a", "b", "c", "d", "e"}
 	nIDs := 3
@@ -201,6 +241,15 @@ func runGateSeq(rc *RunCtx, prop string) {
 				op = gateOp{Kind: "flushall"}
 			default:
 				op = gateOp{Kind: "close"}
+			}
+			if fixed != nil && !probe {
+				op = fixed[i]
+				switch op.D {
+				case -1:
+					op.D = int64(E) + 1
+				case -2:
+					op.D = int64(E) / 2
+				}
 			}
 			// faults are attached to the next compose / send call numbers
 			if withFaults && !probe {
